@@ -35,7 +35,8 @@ def build_sa(sa_db, style, steps, flt):
                     "hasauthor": lambda: Post.author.has(Author.name.isnot(None))}[arg]()
             q = where(q, cond)
         elif kind == "join":
-            q = q.join(Post.author) if arg == "author-inner" else q.outerjoin(Post.author)
+            rel = Post.author if arg.startswith("author") else Post.info
+            q = q.join(rel) if arg.endswith("inner") else q.outerjoin(rel)
         elif kind == "order":
             q = q.order_by(Post.id.desc())
         elif kind == "annotate":
